@@ -17,13 +17,17 @@ const (
 
 func init() {
 	Registry["C01"] = Spec{
-		Pkgs: map[string][]string{"v2": {"plan", "gqlds", "resolve"}},
+		Pkgs: map[string][]string{"v2": {"plan", "gqlds", "resolve", "postprocess"}},
 		Run:  runC01,
 		Explanation: "Decides a thin structural slice of 'federated execution equals monolithic execution': every upstream operation the GraphQL data source emits passed, on every path that returns it, normalization and validation against that subgraph's own schema (the same document is normalized, validated and printed); " +
 			"every field the planner synthesises into the client operation (keys, @requires fields, __typename) is recorded in a skip list on all paths, every producer of such lists is consumed by the node-selection visitor, the response-shape visitor takes the list from the selection result, constructs response fields only for non-skipped refs and skips symmetrically on leave; " +
 			"the loader's fetch-kind dispatch covers every fetch implementation; every planner callback is registered with its walker. " +
 			"NOT decided (no honest structural proxy): data(gateway) == data(monolith), error equivalence, planning totality, field ownership of subgraph requests.",
 		Mutants: []Mutant{
+			{Name: "@provides looked up by field name only (seeded change C01-22)", File: "v2/pkg/engine/plan/datasource_filter_collect_nodes_visitor.go", Rule: "C01-R9", Key: "hasProvidesConfiguration/field-name-lookup-also-compares-type-name",
+				Old: "\t\treturn provide.TypeName == typeName && provide.FieldName == fieldName\n", New: "\t\treturn provide.FieldName == fieldName\n"},
+			{Name: "merged fetch keeps the fragment scope of its first member (seeded change C01-21)", File: "v2/pkg/engine/postprocess/deduplicate_single_fetches.go", Rule: "C01-R10", Key: "mergeTypeNames/empty-scope-absorbs",
+				Old: "\tif len(left) == 0 || len(right) == 0 {\n\t\treturn nil // if either side is empty, fetch is unscoped\n\t}\n", New: "\tif len(left) == 0 {\n\t\treturn nil\n\t}\n\tif len(right) == 0 {\n\t\treturn left\n\t}\n"},
 			{Name: "enclosing type of a field resolved in the operation document by the path builder", File: "v2/pkg/engine/plan/path_builder_visitor.go", Rule: "C01-R8", Key: "pathBuilderVisitor.EnterField/Node.NameString",
 				Old: "\ttypeName := c.walker.EnclosingTypeDefinition.NameString(c.definition)\n\n\tc.debugPrint(\"EnterField ref:\"", New: "\ttypeName := c.walker.EnclosingTypeDefinition.NameString(c.operation)\n\n\tc.debugPrint(\"EnterField ref:\""},
 			{Name: "upstream operation printed without self-validation", File: gqldsGo, Rule: "C01-R1", Key: "validated",
@@ -435,6 +439,8 @@ func runC01(r *fw.Run) {
 		r.Expect("C01-R6", "Visitor state writes in LeaveField", n, 2)
 	}
 	c01BatchDedupIndex(r)
+	c01CoordinateCompleteness(r)
+	c01MergedScopeKeepsUnscoped(r)
 
 	r.Rule("C01-R8", "in every planner visitor (packages plan and graphql_datasource) a node is looked up only in the document it came from: a definition node (Walker.EnclosingTypeDefinition, TypeDefinitions, a lookup in the definition) is never handed to a method of the operation document, nor the other way round")
 	documentProvenance(r, "C01-R8", []string{"plan", "gqlds"}, 28)
@@ -529,4 +535,244 @@ func c01BatchDedupIndex(r *fw.Run) {
 		})
 	}
 	r.Expect("C01-R7", "stores into batchHashToIndex", n, 2)
+}
+
+// c01CoordinateCompleteness (R9): federation metadata and field configuration are keyed by the coordinate (type name,
+// field name). A lookup that matches the field name only confuses same-named fields of different types:
+// `Comment.author` is treated like `Review.author @provides(...)`, and the gateway asks a subgraph for an @external field
+// it does not own. For every comparison of the FieldName of a configuration record (a struct of package plan that has
+// both a TypeName and a FieldName field) with a non-constant name, the same declared function also compares the TypeName
+// of the same record with a non-constant name.
+func c01CoordinateCompleteness(r *fw.Run) {
+	p := r.Prog
+	r.Rule("C01-R9", "every lookup in the planner's per-coordinate configuration (records with TypeName and FieldName) that compares FieldName with a field name also compares the TypeName of the same record in the same function")
+	n := 0
+	for _, fi := range p.Funcs("plan") {
+		info := fi.Info()
+		isCoordRecord := func(t types.Type) bool {
+			st, ok := derefT(t).Underlying().(*types.Struct)
+			if !ok {
+				return false
+			}
+			hasT, hasF := false, false
+			for i := 0; i < st.NumFields(); i++ {
+				switch st.Field(i).Name() {
+				case "TypeName":
+					hasT = true
+				case "FieldName":
+					hasF = true
+				}
+			}
+			return hasT && hasF
+		}
+		// comparisons of <record>.<field> with a non-constant
+		type cmp struct {
+			rec string
+			pos ast.Node
+		}
+		collect := func(field string) []cmp {
+			var out []cmp
+			fw.WalkAll(fi.Decl.Body, func(nd ast.Node) bool {
+				be, ok := nd.(*ast.BinaryExpr)
+				if !ok || (be.Op.String() != "==" && be.Op.String() != "!=") {
+					return true
+				}
+				for _, pr := range [][2]ast.Expr{{be.X, be.Y}, {be.Y, be.X}} {
+					sel, isSel := ast.Unparen(pr[0]).(*ast.SelectorExpr)
+					if !isSel || sel.Sel.Name != field {
+						continue
+					}
+					tv, okT := info.Types[sel.X]
+					if !okT || !isCoordRecord(tv.Type) {
+						continue
+					}
+					if _, isConst := fw.ConstVal(info, pr[1]); isConst {
+						continue // FieldName == "" (a key record), == "__typename": not a coordinate lookup
+					}
+					if !isSearchedElement(fi, sel.X) {
+						continue // the coordinates of the node at hand, not an element of a table being searched
+					}
+					// both sides records (a.FieldName == b.FieldName): an equality of records, handled by the sibling comparison
+					out = append(out, cmp{rec: fw.ExprKey(info, sel.X), pos: be})
+				}
+				return true
+			})
+			return out
+		}
+		fields := collect("FieldName")
+		if len(fields) == 0 {
+			continue
+		}
+		types_ := collect("TypeName")
+		for i, c := range fields {
+			n++
+			ok := false
+			for _, t := range types_ {
+				if t.rec == c.rec {
+					ok = true
+				}
+			}
+			key := fi.Name() + "/field-name-lookup-also-compares-type-name"
+			if i > 0 {
+				key += "#" + itoa(i+1)
+			}
+			r.Check(ok, "C01-R9", key, p.Pos(c.pos.Pos()), "the FieldName comparison in "+fi.Name()+" is accompanied by a TypeName comparison of the same record",
+				"the record is matched by field name alone: a same-named field of another type picks up this type's configuration (@provides / @requires / field mapping) — e.g. the gateway treats Comment.author like Review.author @provides and requests an @external field from a subgraph that does not own it")
+		}
+	}
+	r.Expect("C01-R9", "field-name lookups in per-coordinate configuration", n, 7)
+}
+
+// isSearchedElement: e denotes an element of a collection that is being searched — an index expression (f[i], (*f)[i],
+// x.items[i]), a range variable, or the parameter of a function literal (slices.IndexFunc / ContainsFunc predicates).
+func isSearchedElement(fi *fw.FuncInfo, e ast.Expr) bool {
+	info := fi.Info()
+	e = ast.Unparen(e)
+	if st, ok := e.(*ast.StarExpr); ok {
+		e = ast.Unparen(st.X)
+	}
+	if _, ok := e.(*ast.IndexExpr); ok {
+		return true
+	}
+	id, ok := e.(*ast.Ident)
+	if !ok {
+		return false
+	}
+	obj := info.Uses[id]
+	found := false
+	fw.WalkAll(fi.Decl.Body, func(n ast.Node) bool {
+		switch x := n.(type) {
+		case *ast.RangeStmt:
+			for _, kv := range []ast.Expr{x.Key, x.Value} {
+				if kid, isID := kv.(*ast.Ident); isID && info.Defs[kid] == obj {
+					found = true
+				}
+			}
+		case *ast.FuncLit:
+			for _, f := range x.Type.Params.List {
+				for _, nm := range f.Names {
+					if info.Defs[nm] == obj {
+						found = true
+					}
+				}
+			}
+		}
+		return !found
+	})
+	return found
+}
+
+// c01MergedScopeKeepsUnscoped (R10): a fetch path element with no type names is unscoped — it applies to every concrete
+// type. When two identical fetches are de-duplicated their scopes are merged; the merge of "everything" with anything is
+// "everything". The function that computes the TypeNames of a merged path element must therefore return an empty scope on
+// every path on which either input scope is empty. Returning the other side instead narrows the surviving fetch to that
+// side's types: parents of any other concrete type silently get null.
+func c01MergedScopeKeepsUnscoped(r *fw.Run) {
+	p := r.Prog
+	r.Rule("C01-R10", "when two fetches are de-duplicated, the function computing the merged TypeNames scope of a path element returns an empty (unscoped) result on every path on which either input scope is empty")
+	n := 0
+	for _, caller := range p.Funcs("postprocess") {
+		cinfo := caller.Info()
+		fw.WalkAll(caller.Decl.Body, func(nd ast.Node) bool {
+			as, ok := nd.(*ast.AssignStmt)
+			if !ok || len(as.Lhs) != 1 || len(as.Rhs) != 1 || !fw.IsFieldSel(cinfo, as.Lhs[0], "resolve", "FetchItemPathElement", "TypeNames") {
+				return true
+			}
+			call, isCall := ast.Unparen(as.Rhs[0]).(*ast.CallExpr)
+			if !isCall {
+				return true
+			}
+			fi := p.FuncOf(fw.Callee(cinfo, call))
+			if fi == nil {
+				return true
+			}
+			sig := fi.Obj.Type().(*types.Signature)
+			var params []*types.Var
+			for i := 0; i < sig.Params().Len(); i++ {
+				if _, isSlice := sig.Params().At(i).Type().Underlying().(*types.Slice); isSlice {
+					params = append(params, sig.Params().At(i))
+				}
+			}
+			if len(params) != 2 {
+				return true
+			}
+			n++
+			info := fi.Info()
+			covered := map[string]bool{}
+			bad := ""
+			in := fw.NewInterp(fi)
+			in.H = fw.Hooks{
+				Cond: func(e ast.Expr, branch bool, st *fw.State) {
+					// one atom (len(p) == 0), a conjunction, or a disjunction of such atoms (len(l) == 0 || len(r) == 0: one of the
+					// scopes is empty — whichever it is, the result has to be unscoped, so the exit counts for every scope named)
+					op, leaves := fw.NNF(info, e, branch)
+					var named []string
+					for _, a := range leaves {
+						id, isID := ast.Unparen(a.X).(*ast.Ident)
+						isEmpty := isID && (a.Kind == "Empty" || a.Kind == "Nil")
+						matched := false
+						if isEmpty {
+							for _, pv := range params {
+								if info.Uses[id] == pv {
+									named = append(named, pv.Name())
+									matched = true
+								}
+							}
+						}
+						if !matched && op == "or" {
+							return // a disjunct that says nothing about the scopes: the edge does not imply an empty scope
+						}
+					}
+					if op == "mixed" {
+						return
+					}
+					for _, nm := range named {
+						st.Set("empty:" + nm)
+					}
+				},
+				Node: func(nd ast.Node, st *fw.State) {
+					for _, t := range fw.WriteTargets(info, nd) {
+						for _, pv := range params {
+							if fw.RootObj(info, t) == pv {
+								st.Kill("empty:" + pv.Name())
+							}
+						}
+					}
+				},
+				Exit: func(ret *ast.ReturnStmt, lit *ast.FuncLit, st *fw.State) {
+					if lit != nil || ret == nil || !in.Final() || len(ret.Results) != 1 {
+						return
+					}
+					for _, pv := range params {
+						if !st.Must("empty:" + pv.Name()) {
+							continue
+						}
+						isNil := false
+						if id, isID := ast.Unparen(ret.Results[0]).(*ast.Ident); isID && info.Uses[id] == types.Universe.Lookup("nil") {
+							isNil = true
+						}
+						if cl, isCL := ast.Unparen(ret.Results[0]).(*ast.CompositeLit); isCL && len(cl.Elts) == 0 {
+							isNil = true
+						}
+						if isNil {
+							covered[pv.Name()] = true
+						} else {
+							bad = p.Pos(ret.Pos()) + " (scope " + pv.Name() + " empty)"
+						}
+					}
+				},
+			}
+			in.Run(nil)
+			okAll := bad == ""
+			for _, pv := range params {
+				if !covered[pv.Name()] {
+					okAll = false
+				}
+			}
+			r.Check(okAll, "C01-R10", fi.Name()+"/empty-scope-absorbs", fi.Pos(), fi.Name()+" returns an unscoped result whenever one of the merged scopes is unscoped (both inputs have such an exit, none returns a non-empty scope)",
+				"an unscoped fetch merged with a fragment-scoped duplicate keeps (or takes) the fragment's type scope"+map[bool]string{true: "", false: " at " + bad}[bad == ""]+": the surviving fetch is skipped for parents of every other concrete type, which silently get null")
+			return true
+		})
+	}
+	r.Expect("C01-R10", "functions computing a merged TypeNames scope", n, 1)
 }
